@@ -829,7 +829,7 @@ class state_machine_base : public FrontEnd
 
       public:
         completion_event_occurrence(uint8_t region_id)
-            : event_occurrence(&try_process), m_region_id(region_id)
+            : event_occurrence(&try_process, true), m_region_id(region_id)
         {
         }
 
@@ -938,7 +938,11 @@ class state_machine_base : public FrontEnd
             if (*result != process_result::HANDLED_DEFERRED)
             {
                 processed_events++;
-                if (processed_events == max_events)
+                // Stop at the limit, but not while a completion transition
+                // of the step just taken is pending: it fires before any
+                // other event is dispatched (UML Standard 2.3 15.3.14).
+                if (processed_events >= max_events &&
+                    !completion_pending(event_pool))
                 {
                     break;
                 }
@@ -949,6 +953,20 @@ class state_machine_base : public FrontEnd
             it = event_pool.events.begin();
         } while (it != event_pool.events.end());
         return processed_events;
+    }
+
+    // Whether the first occurrence that is still to be processed
+    // is a completion event (they are inserted at the front of the pool).
+    static bool completion_pending(event_pool_t& event_pool)
+    {
+        for (auto& occurrence : event_pool.events)
+        {
+            if (!(*occurrence).marked_for_deletion())
+            {
+                return (*occurrence).is_completion();
+            }
+        }
+        return false;
     }
 
     template <class Event>
